@@ -17,12 +17,13 @@ TRUSTED_BASE = [
     "hand-written Gallina model /verif/coq/Model/*.v: the theorems are about it; it is tied to /repo by the "
     "correspondence components listed under 'components' (differential tests on this run's inputs)",
     "table/constant translator harness/gen_tables.py (Python ast) -> coq/gen/{Elements,Grammar,Params}.v; "
-    "recogniser translator harness/gen_antlr.py (Python ast, fail-closed) tucanParser.py -> coq/gen/Antlr.v",
+    "recogniser translator harness/gen_antlr.py (Python ast, fail-closed) tucanParser.py -> coq/gen/Antlr.v; "
+    "lexer translator harness/gen_antlr_lexer.py (ANTLR runtime ATNDeserializer, fail-closed) tucanLexer.py -> coq/gen/AntlrLexer.v",
     "extraction with ExtrOcamlBasic only (Extract Inductive bool/option/unit/list/prod/sumbool/sumor, "
     "Extract Inlined Constant andb/orb/negb/fst/snd; no Extract Constant of this development); "
     "ocaml/driver.ml (int/string conversion, line protocol); the Python harness",
     "oracles assumed and tested, not proved: igraph/bliss canonical_permutation (H1 bijection, H2 canonical form), "
-    "ANTLR runtime (match/LA/sync with raising listeners) + serialized lexer ATN (the generated tucanParser.py itself is translated and proved; K12), random.shuffle, float()/'{:.6f}', int(), networkx containers",
+    "ANTLR runtime (ATN deserialiser, maximal-munch lexer simulator, match/LA/sync with raising listeners; the generated tucanParser.py and the lexer's ATN are translated and proved; K12), random.shuffle, float()/'{:.6f}', int(), networkx containers",
 ]
 
 
